@@ -482,6 +482,11 @@ def k13_citations(ctx, pid: str):
         absent = any(t.startswith("bool not(in(") and v for t, v in o.path.choices) or any(
             t.startswith("bool in(") and not v for t, v in o.path.choices)
         asked = any(t.startswith("bool ") for t, v in o.path.choices)
+        # membership decided concretely (a list created empty a moment ago)
+        for e in o.path.effects:
+            if e[0] == "contains" and e[2] == CIT:
+                asked = True
+                absent = absent or (e[3] is False)
         if not stores:
             return []
         if len(stores) != 1:
@@ -489,7 +494,9 @@ def k13_citations(ctx, pid: str):
         _, obj, key, val = stores[0]
         if appends:
             lst = appends[0][1]
-            attached = (isinstance(lst, Term) and lst.op == "setdefault" and "annotations(rec)" in repr(lst) and "references" in repr(lst)) or any(
+            attached = (isinstance(lst, Term) and lst.op == "setdefault" and "annotations(rec)" in repr(lst) and "references" in repr(lst)) or (
+                # annotations.get("references") without a default: when it is a list at all it is the record's own
+                isinstance(lst, Term) and lst.op == "get" and len(lst.args) == 2 and "annotations(rec)" in repr(lst) and "references" in repr(lst)) or any(
                 e[0] == "setitem" and "annotations(rec)" in repr(e[1]) and repr(e[2]) == "'references'" for e in o.path.effects)
             out.append(("K13.list-attached", name, attached,
                         "references are appended to %r, which is not (made) the record's own annotations['references']: a record without a reference list keeps its [n] citations but loses the references" % (lst,)))
@@ -759,26 +766,41 @@ def _find_walk_loop(p, fi: FuncInfo):
                             out.add(x.id)
         return out
 
-    loop = _find_loop(fi, (ast.While,))
-    if loop is not None:
-        return loop, {fi.qualname: assigned_in(loop.body)}
-    for node in ast.walk(fi.node):
-        if isinstance(node, ast.For) and isinstance(node.iter, ast.Call):
-            f = node.iter.func
-            g = None
-            if isinstance(f, ast.Attribute) and isinstance(f.value, ast.Name) and f.value.id in ("self", "cls") and fi.owner is not None:
-                _, g = p.class_attr_def(fi.owner, f.attr)
-            elif isinstance(f, ast.Name):
-                g = fi.module.functions.get(f.id)
-            if isinstance(g, FuncInfo) and _is_generator(g.node):
-                inner = _find_loop(g, (ast.While,))
-                if inner is not None:
-                    names = assigned_in(node.body)
-                    for x in ast.walk(node.target):
-                        if isinstance(x, ast.Name):
-                            names.add(x.id)
-                    return inner, {g.qualname: assigned_in(inner.body), fi.qualname: names}
-    return None, {}
+    def callee_of(f, call):
+        fn = call.func
+        g = None
+        if isinstance(fn, ast.Attribute) and isinstance(fn.value, ast.Name) and fn.value.id in ("self", "cls") and f.owner is not None:
+            _, g = p.class_attr_def(f.owner, fn.attr)
+        elif isinstance(fn, ast.Name):
+            g = p.resolve_expr(f.module, fn)
+        return g if isinstance(g, FuncInfo) else None
+
+    def search(f, depth):
+        loop = _find_loop(f, (ast.While,))
+        if loop is not None:
+            return loop, {f.qualname: assigned_in(loop.body)}
+        for node in ast.walk(f.node):
+            if isinstance(node, ast.For) and isinstance(node.iter, ast.Call):
+                g = callee_of(f, node.iter)
+                if g is not None and _is_generator(g.node):
+                    inner = _find_loop(g, (ast.While,))
+                    if inner is not None:
+                        names = assigned_in(node.body)
+                        for x in ast.walk(node.target):
+                            if isinstance(x, ast.Name):
+                                names.add(x.id)
+                        return inner, {g.qualname: assigned_in(inner.body), f.qualname: names}
+        if depth > 0:
+            for node in ast.walk(f.node):
+                if isinstance(node, ast.Call):
+                    g = callee_of(f, node)
+                    if g is not None and g is not f and not _is_generator(g.node):
+                        found = search(g, depth - 1)
+                        if found[0] is not None:
+                            return found
+        return None, {}
+
+    return search(fi, 2)
 
 
 def k14_walk(ctx, pid: str):
@@ -927,7 +949,10 @@ def k16_assemble(ctx, pid: str):
         return hook
 
     product = lambda: ARec(True, [Piece("PRODUCT", ZERO, Aff.sym("len:product"))], Term("product"))
-    hooks[base + "_generate_modules_map"] = stub("map", True, lambda: AMap("M"))
+    from .roles import manager_phases
+
+    ph_ = manager_phases(p)
+    hooks[ph_["map"].qualname] = stub("map", True, lambda: AMap("M"))
     from .roles import citation_functions
 
     deref_f, ref_f = citation_functions(p)
@@ -939,8 +964,8 @@ def k16_assemble(ctx, pid: str):
         return lambda I, f_, args, kwargs: h(I, f_, [None] + list(args), kwargs)
 
     hooks[deref_f.qualname] = unbound(stub("deref", False), deref_f)
-    hooks[base + "_generate_assembly"] = stub("walk", True, product)
-    hooks[base + "_annotate_assembly"] = stub("annotate", True)
+    hooks[ph_["walk"].qualname] = stub("walk", True, product)
+    hooks[ph_["annotate"].qualname] = stub("annotate", True)
     hooks[ref_f.qualname] = unbound(stub("ref", False), ref_f)
 
     def make_args(I):
@@ -997,7 +1022,10 @@ def k16_assemble(ctx, pid: str):
                             "product keeps '[n]' citations without the reference list they index" % (
                                 "_annotate_assembly", "replaces the annotations wholesale" if sm["replaces_annotations"] else "rewrites the references entry")))
             loops = [e for e in o.path.effects if e[0] == "loop"]
-            okl = all(e[1] == "elements" for e in loops) and len(loops) >= 2
+            # both halves of the rewrite range over every element: two loops over self.elements, or one loop that also
+            # registers the re-referencing of each element for the exit of a with block
+            deferred = any(e[0] == "exit-stack" and e[1] >= 1 for e in o.path.effects)
+            okl = all(e[1] == "elements" for e in loops) and (len(loops) >= 2 or (len(loops) == 1 and deferred and bool(refs_in)))
             out.append(("K16.all-inputs", name, okl, "the citation rewrite must cover every element (all modules and the vector): loops over %r" % ([e[1] for e in loops],)))
         return out
 
